@@ -68,6 +68,7 @@ type FnCtx struct {
 	g        *Gen
 	top      *ssa.Function
 	contract *Contract
+	constMapSpans []constMapSpan
 	lines    []string
 	obls     []*Obligation
 	ctr      int
